@@ -1726,8 +1726,9 @@ def c08_ite(R):
     if built and not any(isinstance(x, (ast.Continue, ast.Break)) for x in ast.walk(loop)):
         for t, pol in guards.guards_of(built[0], stop=loop):
             inner = t.args[0] if isinstance(t, ast.Call) and (dotted(t.func) or "").split(".")[-1] == "is_true" and t.args else t
-            good = not pol and isinstance(inner, ast.Compare) and len(inner.ops) == 1 and isinstance(inner.ops[0], (ast.Eq, ast.Is)) and {ast.unparse(inner.left), ast.unparse(inner.comparators[0])} == {val, acc}
+            good = not pol and isinstance(inner, ast.Compare) and len(inner.ops) == 1 and isinstance(inner.ops[0], ast.Is) and {ast.unparse(inner.left), ast.unparse(inner.comparators[0])} == {val, acc}
             good = good or (not pol and isinstance(t, ast.Call) and (dotted(t.func) or "").split(".")[-1] == "is_false" and t.args and ast.unparse(t.args[0]) == cnd)
+            good = good or (not pol and equality_helper(t) and acc is not None and {ast.unparse(a_) for a_ in t.args} == {val, acc})
             R.check(
                 bool(good),
                 m,
